@@ -92,8 +92,16 @@ def is_trace_preserving(
     # If the variable `phi` is provided as a list, we assume this is a list
     # of Kraus operators.
     if isinstance(phi, list):
-        phi_l = [A for A, _ in phi]
-        phi_r = [B for _, B in phi]
+        if isinstance(phi[0], np.ndarray):
+            # Flat list of Kraus operators of a completely positive map: [K1, K2, ..., Kr].
+            phi_l = phi_r = phi
+        elif len(phi[0]) == 1 or (len(phi) == 1 and len(phi[0]) > 2):
+            # Nested forms of the same: [[K1], [K2], ..., [Kr]] or [[K1, K2, ..., Kr]] with r > 2.
+            phi_l = phi_r = [k_mat for sub_list in phi for k_mat in sub_list]
+        else:
+            # Left and right Kraus operators: [[A1, B1], [A2, B2], ..., [Ar, Br]].
+            phi_l = [A for A, _ in phi]
+            phi_r = [B for _, B in phi]
 
         k_l = np.concatenate(phi_l, axis=0)
         k_r = np.concatenate(phi_r, axis=0)
